@@ -356,6 +356,7 @@ def run(rep, tier):
         # 'with the pooling allocator': a pool chunk created for a request must cover it (shared with C16)
         from . import c16
         c16.chunk_size_rule(facts, rep)
+        c16.clause_a(facts, rep, '')       # a pool on a user buffer: the capacity accounts for the alignment skip
     rep.min_instances('E1.status', 20)
     rep.trust('clang 14 parser/template instantiation/CFG builder', 'sv/primitives.py load widths',
               'libc realloc/free/memcpy semantics')
